@@ -2,6 +2,7 @@
 source under explicit, seeded layout decisions, recording by construction where every
 statement, comment, directive and include line ends up."""
 import random
+import re
 from fv.gen import St, Blk, is_literal, join_natural, is_kw
 
 COMMENT_TEXTS = ["! plain comment", "!", "! it's quoted \"x\"", "! with & ampersand", "!! double bang",
@@ -68,7 +69,7 @@ class FreeOpts:
 
     def __init__(self, p_cont=0.25, p_lead_amp=0.5, p_lit_cut=0.3, p_between=0.3, p_trailing=0.15,
                  p_comment=0.15, p_blank=0.08, p_semi=0.0, case="keep", indent="tree",
-                 p_extra_blank=0.1, comments=True, max_cuts=3, kw_stress=False):
+                 p_extra_blank=0.1, comments=True, max_cuts=3, kw_stress=False, kw_protect=()):
         self.__dict__.update(locals())
         del self.__dict__["self"]
 
@@ -94,7 +95,7 @@ def stmt_text(st, rng, opts, laid=None):
         sep = after[len(before): len(after) - len(t)]
         tight = sep == ""
         kwkw = k > 0 and is_kw(toks[k - 1]) and is_kw(t)
-        if k > 0 and kwkw and not opts.kw_stress:
+        if k > 0 and kwkw and (not opts.kw_stress or (toks[k - 1].upper(), t.upper()) in opts.kw_protect):
             # adjacent keywords ("END IF", "DOUBLE PRECISION"): the main stream keeps
             # exactly one blank and never cuts here (fparser's compound-keyword patterns
             # are exercised separately, pair by pair, by the keyword-pair stream)
@@ -309,6 +310,9 @@ def render_fixed(prog, rng, opts=None):
         body = ""
         if st.cname:
             body += st.cname + ": "
+        # the fixed-form reader extracts the construct name from the initial line only: keep
+        # `name: first-token` together on it (the opposite is the known finding F-C05-3)
+        min_first = min(depth, 6) + len(body) + len(st.toks[0]) if st.cname else 1
         body += join_natural(st.toks)
         body = " " * min(depth, 6) + body
         lab = st.label or ""
@@ -323,13 +327,27 @@ def render_fixed(prog, rng, opts=None):
             if len(rest) > 10 and rng.random() < 0.2:
                 w = rng.randint(8, min(width, len(rest) - 1))
                 laid.hit("early-wrap")
+            if not chunks and w < min_first:
+                w = min_first
             if len(rest) <= w:
                 chunks.append(rest)
                 break
             # do not leave a chunk that is empty or only blanks at either side
             cut = w
-            while cut > 1 and (rest[:cut].strip() == "" or rest[cut:].strip() == ""):
+            # physical lines are right-stripped by the reader, so a chunk must not end in a
+            # blank (the blank moves to the start of the next chunk instead)
+            while cut > 1 and (rest[cut - 1] in " &" or rest[:cut].strip() == "" or rest[cut:].strip() == "") \
+                    and (chunks or cut > min_first):
                 cut -= 1
+            if not chunks:
+                # an initial line of the shape `word :` is taken for a construct name with
+                # nothing after it (known finding F-C05-3): never produce it
+                while cut < len(rest) and re.match(r"^\s*\w+\s*:\s*$", rest[:cut]):
+                    cut += 1
+            if rest[:cut].strip() == "":
+                cut = w
+                while cut < len(rest) and rest[cut - 1] == " ":
+                    cut += 1
             chunks.append(rest[:cut])
             rest = rest[cut:]
             laid.hit("wrap")
